@@ -58,7 +58,9 @@ def explore(desc, tier, scratch=None, max_violations=3):
             st['recordings'] += 1
             m = rec['monitor']
             events = m.events
-            r, open_at_r = inject.admissibility(m)
+            # rule 1 with per-cycle windows (1d): r = limit, tblocked = restoration mechanisms of
+            # completed cycles of the touched variables, twins = their perturbed stretches
+            r, tblocked, twins, open_at_r = inject.fault_windows(m)
             l1 = inject.l1_codes(m, world.entry_keys(j))
             win = driver.window_start(m)
             oc = outcome_class(world, rec)
@@ -74,15 +76,18 @@ def explore(desc, tier, scratch=None, max_violations=3):
             if oc[0] != 'returned' and win is not None:
                 nontrivial.add(util.canon([entry, entry_state, _cfg_class(inv), oc[1:]]))
             blocked, owin, open_other = inject.other_windows(m)
+            blocked = list(blocked) + list(tblocked)
+            if len(tblocked) > 1 or (tblocked and any(e['adm'] and e['i'] >= tblocked[0][1] for e in events[:r])):
+                st['later_cycle_invocations'] = st.get('later_cycle_invocations', 0) + 1
             if owin:
                 st['probes']['other_variable_mutated_by_code_under_test'] = \
                     st['probes'].get('other_variable_mutated_by_code_under_test', 0) + 1
             for e in events[:r]:
-                if e['adm']:
+                if e['adm'] and not any(lo <= e['i'] < hi for lo, hi in blocked):
                     sites_seen.add(util.digest(identity(e))[:10])
             plan, nl1, nl2 = driver.plan_faults(events, r, l1, win, inv, tier, entry,
                                                    agg=world.w['plots'] != 'stub', blocked=blocked, owin=owin,
-                                                   still_open=open_at_r | open_other)
+                                                   still_open=open_at_r | open_other, wins=twins)
             st['l1_sites'] += nl1
             st['l2_sites'] += nl2
             tr = {'j': j, 'entry': entry, 'n_events': len(events), 'r': r, 'win': win,
@@ -120,7 +125,9 @@ def explore(desc, tier, scratch=None, max_violations=3):
                     continue
                 oc2 = outcome_class(world, res)
                 sites_hit.add(util.digest(identity(events[k]))[:10])
-                inwin = win is not None and k >= win
+                inwin = driver.in_windows(k, twins, win)
+                if inwin and tblocked and k >= tblocked[0][1]:
+                    st['later_cycle_faults'] = st.get('later_cycle_faults', 0) + 1
                 if inwin:
                     st['in_window_faults'] += 1
                     nontrivial.add(util.canon([entry, entry_state, _cfg_class(inv),
@@ -160,7 +167,8 @@ def explore(desc, tier, scratch=None, max_violations=3):
             # ---- observation only: a stage that leaves through SystemExit (not an Exception) ----
             # Borderline for the statement ("an error raised by any stage"), so never a verdict;
             # counted and printed so that a restore written as `except Exception:` is at least seen.
-            inwin_l1 = [e for e in events[:r] if e['adm'] and e['ckey'] in l1 and win is not None and e['i'] >= win]
+            inwin_l1 = [e for e in events[:r] if e['adm'] and e['ckey'] in l1 and driver.in_windows(e['i'], twins, win)
+                        and not any(lo <= e['i'] < hi for lo, hi in blocked)]
             for e in inwin_l1[:1] + inwin_l1[-1:] if len(inwin_l1) > 1 else inwin_l1[:1]:
                 world.restore_rw()
                 resX = world.execute(j, fault=inject.Fault(e['i'], 'SystemExit', tuple(identity(e))),
@@ -182,8 +190,8 @@ def explore(desc, tier, scratch=None, max_violations=3):
                 if mA.fired is None or mA.diverged is not None:
                     st['diverged'] += 1
                     continue
-                rA = inject.admissible_limit(mA)
-                blockedA = inject.other_windows(mA)[0]
+                rA, tbA = inject.fault_windows(mA)[:2]
+                blockedA = list(inject.other_windows(mA)[0]) + list(tbA)
                 path = [e for e in mA.events[kA + 1:rA] if e['adm'] and
                         not any(lo <= e['i'] < hi for lo, hi in blockedA)]
                 st['exception_path_sites'] = st.get('exception_path_sites', 0) + len(path)
@@ -213,7 +221,7 @@ def explore(desc, tier, scratch=None, max_violations=3):
                                                         history))
             # ---- the execution that actually advances the history -----------
             world.restore_rw()
-            sel = driver.resolve_selector(inv.get('fault'), events, r, l1, win)
+            sel = driver.resolve_selector(inv.get('fault'), events, r, l1, win, blocked=blocked)
             if sel is None:
                 spec = None
                 res = world.execute(j, fault=None, keep_events=False)
@@ -508,7 +516,8 @@ RULE = ("One run = one seeded world (synthetic spectro + photo survey trees with
         "the code mutates first), for a few delivered faults a second fault at each call site that "
         "only exists on the failure path (chained faults), then once more with the history's own "
         "drawn fault to advance the workspace. evaluations = recordings + injected executions; "
-        "after each one os.environ must equal its snapshot taken immediately before. A case is "
+        "after each one os.environ and the C-level environ must equal their snapshots taken immediately "
+        "before. Code that perturbs and restores several times per call is probed in every cycle (rule 1d). A case is "
         "non-trivial when the failure (natural or injected) happened inside the perturbed window, "
         "i.e. after the first mutation of a touched variable; distinct = distinct (entry point, "
         "set/unset entry state of the touched variables, configuration class, failing call site "
@@ -540,7 +549,9 @@ ASSUMPTIONS = [
     "itself), one per invocation (rule 3).",
     "Only call sites inside pydl code are fault points; first-level sites are swept completely per explored "
     "configuration, deeper sites and the configuration space are seeded samples.",
-    "os.environ as seen through dict(os.environ); direct os.putenv calls would be invisible.",
+    "Observation: dict(os.environ) and the C library's environ array (ctypes), both immediately before and after "
+    "each execution; a change made behind the mapping (os.putenv/os.unsetenv, setenv(3) in an extension) is reported "
+    "as 'libc:NAME'.",
     "KeyboardInterrupt/SystemExit are not injected: the property speaks of errors raised by stages.",
 ]
 
